@@ -21,8 +21,8 @@ BOUNDS = {
              'trivially copyable 8/16 bytes, non-trivially copyable 8/16 bytes, via the rvalue / lvalue constructor, captured state symbolic), then one operation: 14 operation codes x object indices enumerated '
              '(quick: first operand is object 0; both objects have symbolic pre-states, so the other half is the mirror image), then both are called and destroyed; '
              'histories of 3 symbolic operations (10 codes with fixed operands: assign small / capacity-filling trivial / non-trivial callable, copy, move, swap, reset, call) from two empty wrappers',
-    'thorough': 'same call forms; inplace_function capacities 16 and 32 (6 / 10 target kinds, captures of 8..32 bytes), one operation from every state for all object index combinations (36 queries per capacity), '
-                'histories of 5 (capacity 16) and 4 (capacity 32) symbolic operations',
+    'thorough': 'same call forms; inplace_function capacities 16 (captures of 8 and 16 bytes) and 32 (captures of 24 and 32 bytes; 6 target kinds each), one operation from every state for all object index combinations (36 queries per capacity), '
+                'histories of 5 (capacity 16) and 3 (capacity 32; 4 did not finish in 900 s) symbolic operations',
 }
 ASSUMPTIONS = [
     'C20: value-category / result-type preservation is type-level: covered only by static_asserts in kernel.cpp (compile-time, not solver evidence); what the solver decides is the run-time trace of it: '
@@ -51,6 +51,7 @@ def queries(tier, prop='C20'):
         out.append(q)
     caps = [16] if tier == 'quick' else [16, 32]
     for cap in caps:
+        ccfg = {'CAP': cap} if cap == 16 else {'CAP': cap, 'WMIN': 3}   # capacity 32: captures of 24 and 32 bytes (8 and 16 are covered at capacity 16)
         uw = 8 + cap + 10
         us = {'ll_memcpy.0': cap + 24, 'll_memset.0': cap + 24, 'll_memmove.0': cap + 24, 'll_memmove.1': cap + 24}
         for op in range(14):
@@ -59,10 +60,9 @@ def queries(tier, prop='C20'):
             if tier == 'quick':     # the two objects are interchangeable (both pre-states symbolic): quick keeps i = 0
                 ijs = [x for x in ijs if x[0] == 0]
             for (i, j) in ijs:
-                out.append(dict(entry='q_ipf_step_%d_%d%d' % (op, i, j), cfg={'CAP': cap}, unwind=uw, unwindset=us, **base))
-        k = 3 if tier == 'quick' else (5 if cap == 16 else 4)
-        k = int(os.environ.get('C20_HIST_K', k))
-        out.append(dict(entry='q_ipf_hist', cfg={'CAP': cap, 'KSTEPS': k}, unwind=uw, unwindset=us, **dict(base, budget=int(os.environ.get('C20_HIST_BUDGET', 600 if tier != 'quick' else 120)), solver=os.environ.get('C20_HIST_SOLVER', 'minisat'))))
+                out.append(dict(entry='q_ipf_step_%d_%d%d' % (op, i, j), cfg=dict(ccfg), unwind=uw, unwindset=us, **dict(base, budget=120 if tier == 'quick' else 400)))
+        k = 3 if tier == 'quick' else (5 if cap == 16 else 3)   # capacity 32, 4 operations: no verdict in 900 s (minisat), reduced to 3
+        out.append(dict(entry='q_ipf_hist', cfg=dict(ccfg, KSTEPS=k), unwind=uw, unwindset=us, **dict(base, budget=900 if tier != 'quick' else 240)))
         if cap != 16:
-            out.append(dict(entry='q_ipf_misc', cfg={'CAP': cap}, unwind=8 + cap + 10, **base))
+            out.append(dict(entry='q_ipf_misc', cfg=dict(ccfg), unwind=8 + cap + 10, **base))
     return out
